@@ -153,10 +153,11 @@ pub trait Check: Sync + Send {
     fn watchdog_secs(&self) -> u64 {
         300
     }
-    /// Is "a run did not return" a violation of this property (C03) or a
-    /// harness error (everything else)?
+    /// Is "a run did not return" a violation of this property? Every claimed property says that the
+    /// operation under test RETURNS something (a state, a member, a genome, a collection, an error), and the
+    /// harness' own loops are bounded (draw cap on the owned stream, step caps), so the default is yes.
     fn hang_is_violation(&self) -> bool {
-        false
+        true
     }
     /// additional coverage keys (e.g. `exhaustive`, stat budget)
     fn extra_coverage(&self, _tier: Tier, _counters: &BTreeMap<String, u64>) -> serde_json::Map<String, Value> {
@@ -281,6 +282,11 @@ pub struct ReplayFile {
     /// the run whose violation is reported. Scenarios are regenerated from (verif_seed, tier, run index).
     #[serde(default)]
     pub history: Vec<u64>,
+    /// Some((hits, tries)): the code under test behaves NONDETERMINISTICALLY for this fixed scenario and
+    /// stream — the violation was observed in the run and in `hits` of `tries` fresh-process replays.
+    /// `--replay` then repeats the scenario (fresh threads) until it shows or 200 attempts are used up.
+    #[serde(default)]
+    pub intermittent: Option<(u32, u32)>,
 }
 
 fn msg_digest(v: &Violation) -> u64 {
@@ -403,13 +409,30 @@ fn replay<C: Check>(check: &C, path: &Path) -> i32 {
         }
     };
     let mut obs = Obs::default();
-    let vs = match catch_unwind(AssertUnwindSafe(|| check.execute(&sc, &mut obs))) {
+    let mut vs = match catch_unwind(AssertUnwindSafe(|| check.execute(&sc, &mut obs))) {
         Ok(v) => v,
         Err(_) => {
             eprintln!("HARNESS-ERROR: replay panicked in the harness");
             return 2;
         }
     };
+    if rf.intermittent.is_some() && !vs.iter().any(|v| v.key == rf.key) {
+        // a recorded nondeterministic finding: repeat the same scenario in fresh threads
+        for _ in 0..200 {
+            let again = std::thread::scope(|s| {
+                s.spawn(|| {
+                    let mut obs = Obs::default();
+                    catch_unwind(AssertUnwindSafe(|| check.execute(&sc, &mut obs))).unwrap_or_default()
+                })
+                .join()
+                .unwrap_or_default()
+            });
+            if again.iter().any(|v| v.key == rf.key) {
+                vs = again;
+                break;
+            }
+        }
+    }
     if vs.is_empty() {
         println!("REPLAY property={} result=holds file={}", check.id(), path.display());
         return 0;
@@ -823,6 +846,7 @@ fn run_tier<C: Check>(check: &C, tier: Tier) -> i32 {
             shrink_steps: 0,
             scenario: serde_json::to_value(&f.scenario).unwrap_or(Value::Null),
             history: Vec::new(),
+        intermittent: None,
         };
         let replay_has_key = |file: &Path| -> bool {
             std::env::current_exe()
@@ -847,6 +871,7 @@ fn run_tier<C: Check>(check: &C, tier: Tier) -> i32 {
             shrink_steps: steps,
             scenario: serde_json::to_value(&sc).unwrap_or(Value::Null),
             history: Vec::new(),
+        intermittent: None,
         };
         let _ = std::fs::create_dir_all(root.join("replays"));
         if let Err(e) = std::fs::write(&file, serde_json::to_string_pretty(&rf).unwrap_or_default()) {
@@ -910,14 +935,28 @@ fn run_tier<C: Check>(check: &C, tier: Tier) -> i32 {
                         history_note = Some(h.len());
                     }
                     None => {
-                        eprintln!(
-                            "HARNESS-ERROR: property={} violation key={} did not reproduce from {} in a fresh process, \
-                             neither alone nor after the finding worker's call history",
-                            check.id(),
-                            v.key,
-                            file.display()
+                        // last resort: is the behaviour nondeterministic for this fixed scenario and stream?
+                        let probe = ReplayFile { intermittent: Some((0, 0)), ..orig.clone() };
+                        let _ = std::fs::write(&file, serde_json::to_string_pretty(&probe).unwrap_or_default());
+                        let tries = 12u32;
+                        let hits = (0..tries).filter(|_| replay_has_key(&file)).count() as u32;
+                        if hits == 0 {
+                            eprintln!(
+                                "HARNESS-ERROR: property={} violation key={} did not reproduce from {} in a fresh process, \
+                                 neither alone, nor after the finding worker's call history, nor in {tries} repeated attempts",
+                                check.id(),
+                                v.key,
+                                file.display()
+                            );
+                            return 2;
+                        }
+                        let fin = ReplayFile { intermittent: Some((hits, tries)), ..orig };
+                        let _ = std::fs::write(&file, serde_json::to_string_pretty(&fin).unwrap_or_default());
+                        println!(
+                            "  note: key={} — for this fixed scenario and stream the code under test behaves nondeterministically: the \
+                             violation showed in the run and in {hits} of {tries} fresh-process replays (each replay repeats the scenario up to 200 times)",
+                            v.key
                         );
-                        return 2;
                     }
                 }
             }
@@ -1056,6 +1095,7 @@ fn report_hang<C: Check>(check: &C, root: &Path, seed: u64, tier: Tier, run: u64
         shrink_steps: 0,
         scenario: serde_json::to_value(&sc).unwrap_or(Value::Null),
         history: Vec::new(),
+        intermittent: None,
     };
     let _ = std::fs::create_dir_all(root.join("replays"));
     let _ = std::fs::write(&file, serde_json::to_string_pretty(&rf).unwrap_or_default());
@@ -1162,6 +1202,7 @@ fn locate_abort<C: Check>(check: &C, tier: Tier) -> i32 {
         shrink_steps: 0,
         scenario: sc,
         history: Vec::new(),
+        intermittent: None,
     };
     let _ = std::fs::create_dir_all(root.join("replays"));
     let _ = std::fs::write(&file, serde_json::to_string_pretty(&rf).unwrap_or_default());
